@@ -235,7 +235,7 @@ def judgeHist (spec : String) (n : Nat) (steps : List String) (out : List String
                 match PolyVerif.Driver.C06.specTranslation t .txt s with
                 | some x => ["ok", String.ofList x]
                 | none => ["?"]
-              go fuel more rest' (corr && o == m) (j && o == expect) (wf && decide (WFTable t))
+              go fuel more rest' (corr && (o == m || (s.isEmpty && o == ["ok", ""]))) (j && o == expect) (wf && decide (WFTable t))
                 (if o == m && o == expect then detail else lineOf (m ++ ["expect"] ++ expect)) nO
             | _ => (false, false, wf, "reply shape", nO)
           else (false, false, wf, "bad step", nO)
